@@ -353,7 +353,7 @@ func (e *provEnv) compute(v ssa.Value) *provInfo {
 			// was stored into that field (or the whole struct) can be read back
 			if fa, ok := x.X.(*ssa.FieldAddr); ok && fa.X == cell {
 				if al, isAlloc := cell.(*ssa.Alloc); isAlloc {
-					if vals, ok := fieldStores(al, fa.Field); ok {
+					if vals, ok := fieldStores(al, fa.Field, x); ok {
 						i := newInfo()
 						for _, sv := range vals {
 							if hasPointers(sv.Type()) {
@@ -783,9 +783,45 @@ func filterBases(info *provInfo, target ssa.Value) *provInfo {
 // directly, into its sub-addresses, or as part of a whole-struct store — when
 // the cell's address is used for nothing but field/element addressing, loads
 // and stores (so nothing else can write it). ok is false otherwise.
-func fieldStores(al *ssa.Alloc, field int) ([]ssa.Value, bool) {
-	var out []ssa.Value
-	ok := true
+func fieldStores(al *ssa.Alloc, field int, at ssa.Instruction) (out []ssa.Value, ok bool) {
+	ok = true
+	var wholeStores, directFieldStores []*ssa.Store
+	before := func(a, b ssa.Instruction) bool {
+		if a.Block() == b.Block() {
+			return instrIndex(a) < instrIndex(b)
+		}
+		return a.Block().Dominates(b.Block())
+	}
+	defer func() {
+		// a later assignment of the field itself replaces what an earlier whole-struct copy put there
+		for _, fs := range directFieldStores {
+			if !before(fs, at) {
+				continue
+			}
+			all := len(wholeStores) > 0
+			for _, w := range wholeStores {
+				if !before(w, fs) {
+					all = false
+				}
+			}
+			if all {
+				var kept []ssa.Value
+				for _, v := range out {
+					isWhole := false
+					for _, w := range wholeStores {
+						if w.Val == v {
+							isWhole = true
+						}
+					}
+					if !isWhole {
+						kept = append(kept, v)
+					}
+				}
+				out = kept
+				return
+			}
+		}
+	}()
 	var sub func(addr ssa.Value, collect bool)
 	sub = func(addr ssa.Value, collect bool) {
 		refs := addr.Referrers()
@@ -822,12 +858,24 @@ func fieldStores(al *ssa.Alloc, field int) ([]ssa.Value, bool) {
 		switch x := r.(type) {
 		case *ssa.Store:
 			if x.Addr == ssa.Value(al) {
+				// a named result is re-stored with its own value at a return (*x = *x): not a new definition
+				if ld, isLd := x.Val.(*ssa.UnOp); isLd && ld.Op == token.MUL && ld.X == ssa.Value(al) {
+					continue
+				}
 				out = append(out, x.Val) // whole-struct store: may carry the field
+				wholeStores = append(wholeStores, x)
 			} else {
 				ok = false
 			}
 		case *ssa.UnOp:
 		case *ssa.FieldAddr:
+			if x.Field == field {
+				for _, rr := range *x.Referrers() {
+					if st, isSt := rr.(*ssa.Store); isSt && st.Addr == ssa.Value(x) {
+						directFieldStores = append(directFieldStores, st)
+					}
+				}
+			}
 			sub(x, x.Field == field)
 		case *ssa.DebugRef:
 		default:
